@@ -80,6 +80,13 @@ def mk_chunk(spec):
         if blk is None:
             blk = _BLK[s] = bytes((j * 7 + s) & 0xFF for j in range(256))
         return (blk * (n // 256 + 1))[:n]
+    if k == "r":   # incompressible (seeded random) bytes: gzip output is larger than the input
+        import random as _random
+        key = (spec[1], spec[2])
+        blk = _BLK.get(key)
+        if blk is None:
+            blk = _BLK[key] = _random.Random(spec[2]).randbytes(spec[1])
+        return blk
     if k == "t":   # compressible ascii text
         n, s = spec[1], spec[2]
         unit = (b"line %d of text; " % s)
@@ -211,7 +218,9 @@ def run_exchange(case, request_bytes, app_settings=None, server_kw=None, handler
         app = web.Application([("/p", handler_cls, {"box": box}), ("/second", SecondHandler)],
                               log_function=_quiet, **(app_settings or {}))
         rig = wire.ServerRig(app, record=False, **(server_kw or {}))
-        peer = rig.connect()
+        # "throttle": the transport accepts the first writes only in small pieces (and sometimes nothing), so the
+        # response head, flushed chunks and the final chunk stay pending across loop iterations
+        peer = rig.connect(write_plan=list(WPLAN_THROTTLE) if case.get("wplan") == "throttle" else None)
         st = rig.streams[0]
         try:
             if case.get("send", "pipelined") == "pipelined":
@@ -749,9 +758,12 @@ def rand_program(rng, maxops=7, bad=True):
     return out
 
 
+WPLAN_THROTTLE = [7, 0, 30, 0, 0, 100, 0, 50, 0, 200, 0, 0, 1000, 0, 3, 0, 4000, 0]
+
+
 def rand_case(rng, maxops=7):
     v, c = rng.choice(VFORMS)
-    return {"method": rng.choice(["GET", "GET", "HEAD", "POST"]), "version": v, "conn": c,
+    return {"wplan": rng.choice([None, None, "throttle"]), "method": rng.choice(["GET", "GET", "HEAD", "POST"]), "version": v, "conn": c,
             "inm": rng.choice([None, None, None, None, "match", "weak", "star", "other", "list"]),
             "send": rng.choice(["pipelined", "pipelined", "sequential"]),
             "prog": rand_program(rng, maxops)}
@@ -807,6 +819,11 @@ def gen_cases(spec):
 
 def directed_cases():
     W = ("write", ("lit", "one"))
+    # close-delimited / Connection: close responses whose last write is still pending when finish() is called
+    yield {"method": "GET", "version": "1.0", "conn": None, "inm": None, "send": "pipelined", "wplan": "throttle",
+           "prog": [("write", ("b", 1024, 3)), ("flush", False), ("write", ("b", 4096, 5))]}
+    yield {"method": "GET", "version": "1.1", "conn": "close", "inm": None, "send": "pipelined", "wplan": "throttle",
+           "prog": [("write", ("b", 1024, 3)), ("flush", False), ("settle",), ("write", ("b", 70 * 1024, 5))]}
     # DESIGN §5: HTTP/1.0 keep-alive + flush before finish
     yield {"method": "GET", "version": "1.0", "conn": "keep-alive", "inm": None, "send": "pipelined",
            "prog": [W, ("flush", False), ("settle",), ("write", ("lit", "y"))]}
